@@ -130,7 +130,9 @@ def classify(F, f, l):
             for et in err_t:
                 # value-aware reachability: an `Err(..)` built in the arm (e.g. the `return Err(e.into())` of a virtually
                 # inlined helper) makes the caller's following `?` take its Break edge only
-                reach = paths.feasible_reach(f, b, avoid=[x for x in f.succ(b) if x != et])
+                # (leaving the test through the Err edge only: the success block may well be re-entered from the arm, as in
+                #  `Ok(()) | Err(KeyExist) => Ok(())`)
+                reach = paths.feasible_reach(f, b, first_edge=et)
                 goods = [rb for rb, kk, tt in paths.ret_assigns(f) if kk in ('ok',) and rb in reach]
                 # a loop header reached again from the Err arm (e.g. `continue`) also swallows the error
                 back = any(b in f.reachable(s) for s in [et]) and f.in_cycle(b)
